@@ -638,7 +638,10 @@ def evaluate(ctx, cases):
         lines += ls
     outs = core.run_driver(lines, prop="C14") if lines else []
     for c, im, (o, n) in zip(cases, impls, spans):
-        judge(ctx, c, im, outs[o:o + n])
+        try:
+            judge(ctx, c, im, outs[o:o + n])
+        except Exception as e:  # noqa: BLE001 -- what evo returned could not even be judged: a finding about this case, never a tool error
+            ctx.fail(c, "output-cannot-be-judged", f"the harness could not judge what evo returned: {type(e).__name__}: {str(e)[:200]}")
 
 
 def shrink(case):
